@@ -237,6 +237,13 @@ fn judge_single(case: &SinkCase, t: &[u8], run: &OneShot, mon: &mut Mon, ctx: &s
         };
         mon.count(if f.hard.is_some() { "c07.hard_fired" } else { "c07.zero_fired" });
         mon.count_dyn(format!("write_fault_fired.{}", kind));
+        if f.hard.is_some() {
+            mon.count(match f.payload {
+                Payload::Custom => "write_fault_payload.custom",
+                Payload::Bare => "write_fault_payload.bare",
+                Payload::Os(_) => "write_fault_payload.raw_os_error",
+            });
+        }
         mon.tuple(format!("fault|{}|{}|{}|{}|{}", class, kind, adapter, entry, if run.result_ok { "ok" } else { "err" }));
         mon.count_dyn(format!("write_fault_in.{}", class));
         if run.result_ok {
